@@ -110,6 +110,22 @@ def gen_cases(rng, n, tier):
     maxl = 3 if tier == 'quick' else 5
     out = []
     while len(out) < n:
+        if rng.random() < 0.02:
+            # very long operands (32..100 limbs, runs of equal limbs) over small denominators: one product or sum, judged by
+            # `==` against the expected value built directly (printing numbers of this size would dominate the run)
+            p1, p2 = N.rand_runs(rng, rng.randint(32, 100)), N.rand_runs(rng, rng.randint(32, 100))
+            if rng.random() < 0.3:
+                p1 = -p1
+            q1, q2 = rng.choice([1, 1, 7, 2 ** 32, 10]), rng.choice([1, 1, 13, 3, 2 ** 32 + 1])
+            op = rng.choice(['nmul', 'nmul', 'nmulas', 'nadd', 'naddas'])
+            va, vb = N.frac(p1, q1), N.frac(p2, q2)
+            v = N.F.mul(va, vb) if op in ('nmul', 'nmulas') else N.F.add(va, vb)
+            script = '%s %s nfrombig %s %s nfrombig %s dup %s %s nfrombig neq out dup %s %s nfrombig neq out drop' % (
+                N.limbs_tok(p1), N.limbs_tok(q1), N.limbs_tok(p2), N.limbs_tok(q2), op,
+                N.limbs_tok(v.numerator), N.limbs_tok(v.denominator), N.limbs_tok(v.numerator + 2 ** rng.randint(0, 2000)), N.limbs_tok(v.denominator))
+            out.append({'script': script, 'expect': ['b|1', 'b|0'], 'tag': 'expr', 'tags': ['very_long_operands', 'op:' + op],
+                        'desc': '%s on very long operands' % op, 'trivial': False})
+            continue
         depth = rng.choice([1, 2, 2, 3, 3, 4, 5, 6])
         big = [False]
         s, v = _expr(rng, depth, maxl, big)
@@ -166,6 +182,6 @@ def main(tier, seed):
     }
     assumptions = ['fractions.Fraction with None as absorbing NaN is the oracle', 'NaN == NaN is not judged',
                    'results capped at %d bits (the real gcd/division is cubic)' % BITCAP, 'floor judged only for non-negative values (as the property states)']
-    minimum = {'evaluations': (n, 5000), 'negative fractions': (hist.get('result:neg_frac', 0), 300),
+    minimum = {'evaluations': (n, 5000), 'very long operands': (hist.get('very_long_operands', 0), 100), 'negative fractions': (hist.get('result:neg_frac', 0), 300),
                'nan results': (hist.get('result:nan', 0), 300), 'eq_other_construction': (hist.get('eq_other_construction', 0), 500)}
     return rep.finish(cov, assumptions, t0, minimum)
